@@ -318,8 +318,12 @@ func makeMethodArshaler(fncs *arshaler, t reflect.Type) *arshaler {
 			}
 			xd := export.Decoder(dec)
 			prevDepth, prevLength := xd.Tokens.DepthLength()
-			if prevDepth == 1 && xd.AtEOF() {
-				return io.EOF // check EOF early to avoid fn reporting an EOF
+			if prevDepth == 1 {
+				if eof, err := xd.AtEOFOrError(); err != nil {
+					return err // report a read error rather than letting fn run into an EOF
+				} else if eof {
+					return io.EOF // check EOF early to avoid fn reporting an EOF
+				}
 			}
 			prevMinDepth := xd.Tokens.MinDepth
 			xd.Tokens.MinDepth = prevDepth
